@@ -23,7 +23,9 @@ pub fn run(ctx: &Ctx) -> Value {
     let mut tw = Tw::new(&ctx.out, "Trace_Rounding", ctx.t(1_500, 10_000));
     let mut rng = Rng::new(ctx.seed ^ 0x17);
     let i64max = i64::MAX as i128;
-    let spans: Vec<i128> = vec![1, 2, 3, 7, 1000, 1_000_000, NS, 60 * NS, 3600 * NS, 86_400 * NS, 7 * 86_400 * NS + 1, 365 * 86_400 * NS, i64max - 1, i64max, i64max + 1, 2 * i64max, DUR_LIM, 0, -1, -NS, -DUR_LIM];
+    let spans: Vec<i128> = vec![5 * 3600 * NS, 7 * 3600 * NS, 9 * 3600 * NS, 10 * 3600 * NS, 11 * 3600 * NS, 13 * 3600 * NS, 23 * 3600 * NS, 7 * 60 * NS, 90 * NS, 2 * 86_400 * NS, 7 * 86_400 * NS,
+        24_855 * 86_400 * NS, 24_856 * 86_400 * NS, 36_525 * 86_400 * NS, 49_711 * 86_400 * NS, 100_000 * 86_400 * NS,
+        1, 2, 3, 7, 1000, 1_000_000, NS, 60 * NS, 3600 * NS, 86_400 * NS, 7 * 86_400 * NS + 1, 365 * 86_400 * NS, i64max - 1, i64max, i64max + 1, 2 * i64max, DUR_LIM, 0, -1, -NS, -DUR_LIM];
     let offs = [0, 3600, -3600, 19_800, 86_399, -86_399];
     let mut n_round = 0;
     let mut stamps: Vec<i128> = vec![0, 1, -1, NS, -NS, 1_500_000_000, -1_500_000_000, 1_499_999_999, -1_499_999_999, 43_200 * NS, -43_200 * NS, 43_200 * NS - 1,
@@ -55,6 +57,19 @@ pub fn run(ctx: &Ctx) -> Value {
                     json!({"same": again == Ok(q), "again": match again { Ok(a) => json!({"ok": ndt(a.naive_utc())}), Err(e) => json!({"err": format!("{:?}", e)}) }}) })); } }
             }
         }
+    }
+    // every span of the lattice at instants decades away from its multiples (long whole-day spans count tens of thousands of days) and at odd
+    // hours of the day (spans of a whole number of hours that does not divide 24 do not restart at midnight)
+    for (y, mo, d, h) in [(2040i32, 1u32, 1u32, 0u32), (2100, 6, 1, 10), (1890, 3, 3, 17), (2020, 1, 1, 10), (1969, 12, 31, 23), (2262, 4, 11, 0)] {
+        let x = mk_ndt(days_from_civil(y, mo, d), h * 3600 + 754, 250_000_000);
+        for &sp in &spans { let span = match mk_dur(sp) { Some(s) => s, None => continue }; for mode in ["trunc", "round", "up"] {
+            if ctx.quick() && sp < 3600 * NS && mode != "trunc" { continue; }
+            tw.emit(ev("round", json!({"mode": mode, "u": ndt(x), "off": 0, "span": big(sp), "naive": true}), || {
+                match (match mode { "trunc" => x.duration_trunc(span), "round" => x.duration_round(span), _ => x.duration_round_up(span) }) {
+                    Ok(q) => { let m = wall_ns(q, 0); let k = if sp > 0 { m.div_euclid(sp) } else { 0 }; json!({"k": big(k), "r": {"ok": ndt(q)}}) }
+                    Err(e) => json!({"k": big(0), "r": {"err": format!("{:?}", e)}}) } }));
+            n_round += 1;
+        } }
     }
     // zone-aware values whose wall clock lies in the one-day headroom beyond the date range: far outside the 64-bit window, a refusal
     for (u, offsets) in [(chrono::NaiveDateTime::MAX, [1, 3600, 86_399]), (chrono::NaiveDateTime::MIN, [-1, -3600, -86_399])] {
